@@ -38,7 +38,7 @@ CHECKS = {
     'C03': ('E-enum', 'exploration',
             'deviation-bounded exhaustive enumeration of scope states x query grammar on the real service against a brute-force oracle',
             'States from the scope enumerator (6 base topologies: flat, nested depth 2 and 3, sharing, nested + sharing through a non-root '
-            'member, a nested sharing provider; x decoration deltas on inventories, usage, traits, aggregates) x queries (10 base requests x '
+            'member, a nested sharing provider; x decoration deltas on inventories, usage, traits, aggregates) x queries (17 base requests x '
             'every set of filter deviations: traits, in:, forbidden traits, member_of variants, in_tree, amounts, group_policy, same_subtree '
             'subsets, a resourceless group, root_required) under a joint deviation bound (quick: (0 state deltas, <=1 query deviation), (1, 0); '
             'thorough: (0, <=2), (1, <=1), (2 on one provider, 0)) at the microversions where semantics change (single deviations also at 1.28 and 1.24, below nested awareness); the returned set of '
@@ -96,7 +96,7 @@ CHECKS = {
             'DESIGN.md 5.C15'),
     'C05': ('E-conc', 'model_checking',
             'stateless exploration of ALL transaction-level interleavings of concurrent requests on the real service, with state matching',
-            'Three start states x every unordered pair (with repetition) of 20 provider-writing operations (incl. the generation-less provider rename), generation-'
+            'Three start states x every unordered pair (with repetition) of 24 provider-writing operations (incl. the generation-less provider rename and writes that empty the provider), generation-'
             'carrying ones with current, stale and not-yet-reached generations, x all interleavings at top-level-transaction granularity '
             '(thorough: plus triples, preemption bound 3). Each request runs in its own greenlet on the real WSGI stack; '
             'every complete schedule class is judged: no 5xx, winners equivalent to a serial order, losers 409 '
